@@ -6,6 +6,7 @@ import (
 	"reflect"
 	"sync"
 	"testing"
+	"time"
 
 	"verif/harness/cfggen"
 	"verif/harness/ev"
@@ -42,6 +43,9 @@ type c09Case struct {
 	// Coalesce (mux): Coalesce[k] says that the packets of turns k and k+1, if they belong to different
 	// sessions, reach the server in one read (two clients' packets coalesced by a single-connect proxy)
 	Coalesce []bool `json:"coalesce,omitempty"`
+	// Pause (mux): Pause[k] milliseconds of real time pass before turn k (the scripted connection has no
+	// clock; only the server's own idea of time can make this matter).  The session alone is not paused.
+	Pause []int `json:"pause,omitempty"`
 }
 
 // c09Reply is what a session observes for one request.
@@ -358,6 +362,10 @@ func runC09(t failer, c c09Case) (overlap bool) {
 		started, finished := map[int]bool{}, map[int]bool{}
 		for k := 0; k < len(c.Order); k++ {
 			i := c.Order[k]
+			if k < len(c.Pause) && c.Pause[k] > 0 {
+				ev.Class("real-time-passes-between-turns")
+				time.Sleep(time.Duration(c.Pause[k]) * time.Millisecond)
+			}
 			if k < len(c.Coalesce) && c.Coalesce[k] && k+1 < len(c.Order) && c.Order[k+1] != i && c.Scripts[c.Order[k+1]].Session != c.Scripts[i].Session && !d.c.Closed() {
 				j := c.Order[k+1]
 				w1, ok1 := sess[i].wire(key)
@@ -523,6 +531,48 @@ func TestC09(t *testing.T) {
 		overlap := runC09(rt, c)
 		classifyC09(c, overlap)
 	})
+}
+
+// TestC09EnumSlowLogin: an ASCII login whose prompts are answered slowly (16.5 s of real time from start to
+// password in quick, 65 s in thorough; each gap shorter than the whole) next to one-packet sessions that
+// start and finish on the same connection meanwhile.
+func TestC09EnumSlowLogin(t *testing.T) {
+	total := 16500
+	if os.Getenv("VERIF_TIER") == "thorough" {
+		total = 65000
+	}
+	w := rapid.Custom(func(rt *rapid.T) cfggen.World { return cfggen.GenWorld(rt) }).Filter(func(w cfggen.World) bool {
+		for name := range w.Cfg.ScopeUsers(cfggen.ScopeA) {
+			if pw, ok := w.CorrectPassword(cfggen.ScopeA, name); ok && pw != "" && name != "" {
+				return true
+			}
+		}
+		return false
+	}).Example(3)
+	var user, pw string
+	var names []string
+	for name := range w.Cfg.ScopeUsers(cfggen.ScopeA) {
+		names = append(names, name)
+	}
+	sortStrings(names)
+	for _, name := range names {
+		if p, ok := w.CorrectPassword(cfggen.ScopeA, name); ok && p != "" && name != "" {
+			user, pw = name, p
+			break
+		}
+	}
+	login := c09Script{Kind: "authen:ascii-user-in-continue", Type: 1, Session: 0x501, Pkts: []c09Pkt{
+		{Body: model.AuthenStart{Action: 1, Priv: 1, AType: 1, Service: 1, Port: b("tty0"), RemAddr: b("r")}.Encode()},
+		{Body: model.AuthenContinue{UserMsg: b(user)}.Encode()},
+		{Body: model.AuthenContinue{UserMsg: b(pw)}.Encode()},
+	}}
+	author := func(id uint32) c09Script {
+		return c09Script{Kind: "author", Type: 2, Session: id, Pkts: []c09Pkt{{Body: model.AuthorRequest{Method: 6, Priv: 1, AType: 1, Service: 1, User: b(user), Port: b("tty0"), RemAddr: b("r"), Args: []model.B{b("service=shell"), b("cmd=show"), b("cmd-arg=version")}}.Encode()}}}
+	}
+	c := c09Case{World: w, Mode: "mux", Scripts: []c09Script{login, author(0x601), author(0x602), author(0x603)}, Assign: []int{0, 0, 0, 0},
+		Order: []int{0, 1, 0, 2, 3, 0}, Pause: []int{0, 0, total / 2, 0, total / 2, 0}}
+	overlap := runC09(t, c)
+	classifyC09(c, overlap)
 }
 
 func TestC09Regress(t *testing.T) {
